@@ -2,7 +2,6 @@ package vuego
 
 import (
 	"fmt"
-	"html"
 	"io"
 	"strings"
 	"sync"
@@ -101,14 +100,8 @@ func (v *Vue) interpolateToWriter(ctx VueContext, w io.Writer, input string) err
 			} else {
 				// Skip escaping if the string doesn't contain special characters
 				// (avoids allocation in html.EscapeString for most cases)
-				if !helpers.NeedsHTMLEscape(valStr) {
-					if _, err := io.WriteString(w, valStr); err != nil {
-						return err
-					}
-				} else {
-					if _, err := io.WriteString(w, html.EscapeString(valStr)); err != nil {
-						return err
-					}
+				if _, err := io.WriteString(w, valStr); err != nil {
+					return err
 				}
 			}
 		}
